@@ -67,7 +67,6 @@ theorem exec_halt {env : Env} {prog : Program} {k : Nat} {s s' sf : State}
   rw [exec_of_run h]; simp [exec, hh]
 
 def State.setPc (s : State) (p : Nat) : State := { s with pc := p }
-def State.setZf (s : State) (z : Bool) : State := { s with zf := z }
 
 /-! ## fetching -/
 
@@ -86,19 +85,33 @@ theorem step_at_ret {env : Env} {prog A C : List Instr} {s : State}
   unfold step
   rw [hpc, fetch_at hp]
 
-theorem step_at_jz {env : Env} {prog A C : List Instr} {l : Nat} {s : State}
-    (hp : prog = A ++ .jz l :: C) (hpc : s.pc = A.length) :
-    step env prog s = if s.zf then jump prog s l else .cont (s.setPc (A.length + 1)) := by
+theorem step_at_jz {env : Env} {prog A C : List Instr} {l : Nat} {s : State} {b : Bool}
+    (hp : prog = A ++ .jz l :: C) (hpc : s.pc = A.length) (hz : s.zf = some b) :
+    step env prog s = if b then jump prog s l else .cont (s.setPc (A.length + 1)) := by
   unfold step
   rw [hpc, fetch_at hp]
-  rfl
+  simp only [State.setPc, hz]
+  cases b <;> rfl
 
-theorem step_at_jnz {env : Env} {prog A C : List Instr} {l : Nat} {s : State}
-    (hp : prog = A ++ .jnz l :: C) (hpc : s.pc = A.length) :
-    step env prog s = if s.zf then .cont (s.setPc (A.length + 1)) else jump prog s l := by
+theorem step_at_jnz {env : Env} {prog A C : List Instr} {l : Nat} {s : State} {b : Bool}
+    (hp : prog = A ++ .jnz l :: C) (hpc : s.pc = A.length) (hz : s.zf = some b) :
+    step env prog s = if b then .cont (s.setPc (A.length + 1)) else jump prog s l := by
   unfold step
   rw [hpc, fetch_at hp]
-  rfl
+  simp only [State.setPc, hz]
+  cases b <;> rfl
+
+theorem step_at_ja {env : Env} {prog A C : List Instr} {l : Nat} {s : State} {z cf : Bool}
+    (hp : prog = A ++ .ja l :: C) (hpc : s.pc = A.length) (hz : s.zf = some z) (hc : s.cf = some cf) :
+    step env prog s = if !z && !cf then jump prog s l else .cont (s.setPc (A.length + 1)) := by
+  unfold step
+  rw [hpc, fetch_at hp]
+  simp only [State.setPc, hz, hc]
+
+theorem step_at_jmp {env : Env} {prog A C : List Instr} {l : Nat} {s : State}
+    (hp : prog = A ++ .jmp l :: C) (hpc : s.pc = A.length) : step env prog s = jump prog s l := by
+  unfold step
+  rw [hpc, fetch_at hp]
 
 theorem findLabel_at {prog A C : List Instr} {l : Nat} (hp : prog = A ++ .label l :: C)
     (hA : ∀ i, i ∈ A → i ≠ .label l) : findLabel prog l = some A.length := by
@@ -113,9 +126,6 @@ theorem findLabel_at {prog A C : List Instr} {l : Nat} (hp : prog = A ++ .label 
 
 theorem Sim.withPc {c : Ctx} {it : Nat} {σ : SymState} {s : State} (h : Sim c it σ s) (p : Nat) :
     Sim c it σ (s.setPc p) := ⟨h.gp, h.vec, h.mem, h.stores_ok⟩
-
-theorem Sim.withZf {c : Ctx} {it : Nat} {σ : SymState} {s : State} (h : Sim c it σ s) (z : Bool) :
-    Sim c it σ (s.setZf z) := ⟨h.gp, h.vec, h.mem, h.stores_ok⟩
 
 theorem jump_eq {prog : Program} {s : State} {l p : Nat} (h : findLabel prog l = some p) :
     jump prog s l = .cont (s.setPc p) := by simp [jump, h, State.setPc]
